@@ -7,6 +7,7 @@ import (
 	"bytes"
 	"crypto/tls"
 	"encoding/binary"
+	"math"
 
 	"github.com/pion/dtls/v3/internal/ciphersuite/types"
 	dtlserrors "github.com/pion/dtls/v3/internal/errors"
@@ -40,6 +41,9 @@ func (m MessageServerKeyExchange) Type() Type {
 func (m *MessageServerKeyExchange) Marshal() ([]byte, error) { //nolint:cyclop
 	var out []byte
 	if m.IdentityHint != nil {
+		if len(m.IdentityHint) > math.MaxUint16 {
+			return nil, dtlserrors.ErrVectorTooLong
+		}
 		out = append([]byte{0x00, 0x00}, m.IdentityHint...)
 		binary.BigEndian.PutUint16(out, uint16(len(out)-2)) //nolint:gosec //G115
 	}
@@ -66,6 +70,9 @@ func (m *MessageServerKeyExchange) Marshal() ([]byte, error) { //nolint:cyclop
 		return out, nil
 	}
 
+	if len(m.Signature) > math.MaxUint16 {
+		return nil, dtlserrors.ErrVectorTooLong
+	}
 	alg := signaturehash.Algorithm{Hash: m.HashAlgorithm, Signature: m.SignatureAlgorithm}
 	out = append(out, append(alg.Marshal(), []byte{0x00, 0x00}...)...)
 	binary.BigEndian.PutUint16(out[len(out)-2:], uint16(len(m.Signature))) //nolint:gosec // G115
